@@ -16,6 +16,60 @@ PREFIX_DENOMS = ["gamm/pool/1", "gamm/pool/10", "xdenomc"]
 NACC = 4                              # accounts 1..3 lock; account 4 is a bystander (reward receiver, wrong sender)
 
 # ---------------------------------------------------------------------------------------------
+# translator: literals and inventories of the Go source the model depends on (regenerated on every run)
+# ---------------------------------------------------------------------------------------------
+MSG_HANDLERS = ["LockTokens", "BeginUnlocking", "BeginUnlockingAll", "ExtendLockup", "ForceUnlock", "SetRewardReceiverAddress"]
+KEY_PREFIXES = {"KeyLastLockID": 0x01, "KeyPrefixPeriodLock": 0x02, "KeyPrefixNotUnlocking": 0x03, "KeyPrefixUnlocking": 0x04,
+                "KeyPrefixTimestamp": 0x05, "KeyPrefixDuration": 0x06, "KeyPrefixLockDuration": 0x07, "KeyPrefixAccountLockDuration": 0x08,
+                "KeyPrefixDenomLockDuration": 0x09, "KeyPrefixAccountDenomLockDuration": 0x0A, "KeyPrefixLockTimestamp": 0x0B,
+                "KeyPrefixAccountLockTimestamp": 0x0C, "KeyPrefixDenomLockTimestamp": 0x0D, "KeyPrefixAccountDenomLockTimestamp": 0x0E,
+                "KeyPrefixSyntheticLockup": 0x0F, "KeyPrefixSyntheticLockTimestamp": 0x10, "KeyPrefixLockAccumulation": 0x20,
+                "KeyIndexSeparator": 0xFF}
+
+
+def translate():
+    import re
+    root = os.path.join(common.REPO, "x", "lockup")
+    abci = open(os.path.join(root, "abci.go")).read()
+    m1 = re.search(r"ctx\.BlockHeight\(\)\s*%\s*(\d+)\s*==\s*0", abci)
+    m2 = re.search(r"numLocksToDelete\s*=\s*([\d_]+)", abci)
+    if not m1 or not m2:
+        raise ValueError("x/lockup/abci.go: EndBlocker no longer has the shape `if ctx.BlockHeight()%N == 0 { ... WithdrawMaturedLocks(ctx, numLocksToDelete) }`")
+    if not re.search(r"k\.WithdrawMaturedLocks\(ctx,\s*numLocksToDelete\)", abci):
+        raise ValueError("x/lockup/abci.go: EndBlocker does not call WithdrawMaturedLocks(ctx, numLocksToDelete)")
+    period, ndel = int(m1.group(1)), int(m2.group(1).replace("_", ""))
+    ms = open(os.path.join(root, "keeper", "msg_server.go")).read()
+    handlers = re.findall(r"^func \(server msgServer\) (\w+)\(", ms, flags=re.M)
+    if sorted(handlers) != sorted(MSG_HANDLERS):
+        raise ValueError("x/lockup/keeper/msg_server.go: message handlers are %s, the model covers %s" % (sorted(handlers), sorted(MSG_HANDLERS)))
+    keys = open(os.path.join(root, "types", "keys.go")).read()
+    found = {n: int(v, 16) for n, v in re.findall(r"^\s*(Key\w+)\s*=\s*\[\]byte\{0x([0-9A-Fa-f]{2})\}", keys, flags=re.M)}
+    if found != KEY_PREFIXES:
+        raise ValueError("x/lockup/types/keys.go: store key prefixes changed: %s" % {k: v for k, v in found.items() if KEY_PREFIXES.get(k) != v})
+    if len(set(found.values())) != len(found):
+        raise ValueError("x/lockup/types/keys.go: store key prefixes are not pairwise distinct")
+    lk = open(os.path.join(root, "keeper", "lock.go")).read()
+    m3 = re.search(r"sumtree\.NewTree\(prefix\.NewStore\(ctx\.KVStore\(k\.storeKey\), accumulationStorePrefix\(denom\)\), (\d+)\)", lk)
+    if not m3:
+        raise ValueError("x/lockup/keeper/lock.go: accumulationStore is no longer a sumtree over the per-denomination prefix store")
+    txt = """(* GENERATED on every run by props/c06.py translate() from /repo/x/lockup/{abci.go, keeper/msg_server.go, keeper/lock.go, types/keys.go}.
+   Do not edit: the C06 model is stated against these names, so a changed literal re-checks model, proofs and correspondence.
+   The translator also checks shapes the model assumes and fails otherwise: the six message handlers of msg_server.go,
+   the store key prefixes of keys.go (pairwise distinct single bytes, separator 0xFF), accumulationStore = sumtree per denomination. *)
+From Coq Require Import ZArith.
+Open Scope Z_scope.
+(* abci.go EndBlocker: matured locks are withdrawn when BlockHeight %% endblock_period == 0, at most num_locks_to_delete of them *)
+Definition endblock_period : Z := %d.
+Definition num_locks_to_delete : Z := %d.
+(* msg_server.go: number of message handlers (LockTokens, BeginUnlocking, BeginUnlockingAll, ExtendLockup, ForceUnlock, SetRewardReceiverAddress) *)
+Definition msg_handler_count : Z := %d.
+(* lock.go accumulationStore: fan-out of the per-denomination sum-tree (not used by the model, which abstracts the tree as a sorted map) *)
+Definition sumtree_fanout : Z := %d.
+""" % (period, ndel, len(handlers), int(m3.group(1)))
+    return {"Gen/C06_consts.v": txt}
+
+
+# ---------------------------------------------------------------------------------------------
 # query families: (name, signature) in the order of harness/c06drv and C06/Corr.v
 #   U: unlocking flag (false, true)  A: account  N: denomination  D: duration  T: time
 #   result kinds: "ids" -> [n, sorted ids]; "coins" -> amounts per denomination + [number of foreign denoms]; "val" -> [x]
